@@ -19,7 +19,7 @@ def Ty.TG (sfh : Bool) (t : Ty) : Prop :=
   | .array e _ => Ty.TG sfh e
   | .hash k v _ => Ty.TG sfh k ∧ Ty.TG sfh v
   | .variant ts => ∀ t', ∀ (_ : t' ∈ ts), Ty.TG sfh t'
-  | .optional t' | .notUndef t' | .sensitive t' | .typ t' | .iterable t' => Ty.TG sfh t'
+  | .optional t' | .notUndef t' | .sensitive t' | .iterator t' | .typ t' | .iterable t' => Ty.TG sfh t'
   | _ => True
 termination_by t.w
 decreasing_by
@@ -57,6 +57,7 @@ theorem Ty.TF.tg : ∀ (n : Nat) (t : Ty), t.w ≤ n → t.TF → t.TG sfh := by
     · exact ⟨ih _ (by omega) h.1, ih _ (by omega) h.2⟩
     · exact fun t' hm => ih t' (by have := Ty.w_lt_wl hm; omega) (h t' hm)
     · exact fun t' hm => ih t' (by have := Ty.w_lt_wl hm; omega) (h t' hm)
+    · exact ih _ (by omega) h
     · exact ih _ (by omega) h
     · exact ih _ (by omega) h
     · exact ih _ (by omega) h
@@ -368,4 +369,21 @@ theorem trG_sensitive (n : Nat) (ih : TransG cfg sfh n) (x : Ty) (b c : Ty) (hw 
   have wc := H.wc; unfold Ty.WF at wc
   simp only [Ty.w] at hw
   exact ih x y z (by omega) ⟨fa, fb, fc, wb, wc⟩ h1 h2
+
+theorem trG_iterator (n : Nat) (ih : TransG cfg sfh n) (x : Ty) (b c : Ty) (hw : (Ty.iterator x).w + b.w + c.w ≤ n + 1)
+    (H : GHyp cfg sfh (.iterator x) b c)
+    (h1 : asgRecv cfg sfh (.iterator x) b = true) (h2 : asgRecv cfg sfh b c = true) : asgRecv cfg sfh (.iterator x) c = true := by
+  have fa := H.fa; unfold Ty.TG at fa
+  unfold asgRecv at h1
+  cases b <;> simp only [] at h1 <;> (first | contradiction | skip)
+  rename_i y
+  have fb := H.fb; unfold Ty.TG at fb
+  have wb := H.wb; unfold Ty.WF at wb
+  unfold asgRecv at h2 ⊢; cases c <;> simp only [] at h2 ⊢ <;> (first | contradiction | skip)
+  rename_i z
+  have fc := H.fc; unfold Ty.TG at fc
+  have wc := H.wc; unfold Ty.WF at wc
+  simp only [Ty.w] at hw
+  exact ih x y z (by omega) ⟨fa, fb, fc, wb, wc⟩ h1 h2
+
 end Pcore.Lat
